@@ -381,6 +381,38 @@ def run(tier):
         lib, core = gen(rng, rng.randrange(1, 4 if tier == "quick" else 5), marks, allow_neg)
         scen.append({"id": i, "lib": lib, "core": core, "letters": [A, B, C, D_, X, Y, OTHER],
                      "markers": sorted(set(marks.values()))})
+    # marked operands under intersection and difference: marker 0 of the other operand unifies with any marker
+    def strip(ast):
+        if isinstance(ast, dict):
+            if ast.get("op") == "single":
+                return {"op": "single", "ls": [[b, 0] for b, _ in ast["ls"]]}
+            return {k: strip(v) for k, v in ast.items()}
+        if isinstance(ast, list):
+            return [strip(v) for v in ast]
+        return ast
+    marks = {X: 1, Y: 2}
+    allb = {"op": "single", "ls": [[b, 0] for b in sorted([A, B, C, X, Y])]}
+    for i in range(24 if tier == "quick" else 300):
+        l1, c1 = gen(rng, rng.randrange(1, 3), marks, False)
+        kind = i % 4
+        if kind == 0:
+            l2, c2 = strip(l1), strip(c1)
+        elif kind == 1:
+            l2 = c2 = {"op": "star", "strict": False, "x": allb}
+        elif kind == 2:
+            l3, c3 = gen(rng, 1, {}, False)
+            l2, c2 = {"op": "union", "s": [strip(l1), l3]}, {"op": "union", "s": [strip(c1), c3]}
+        else:
+            l2, c2 = gen(rng, rng.randrange(1, 3), {}, False)
+        form = (i // 4) % 3
+        if form == 0:
+            lib, core = {"op": "inter", "s": [l1, l2]}, {"op": "inter", "s": [c1, c2]}
+        elif form == 1:
+            lib, core = {"op": "inter", "s": [l2, l1]}, {"op": "inter", "s": [c1, c2]}
+        else:
+            l4, c4 = gen(rng, 1, {}, False)
+            lib, core = {"op": "minus", "x": l1, "y": l4}, {"op": "inter", "s": [c1, {"op": "neg", "x": c4}]}
+        scen.append({"id": len(scen), "lib": lib, "core": core, "letters": [A, B, C, D_, X, Y, OTHER], "markers": [1, 2]})
     for lib, core in templates(rng, {}):
         scen.append({"id": len(scen), "lib": lib, "core": core, "letters": [A, B, C, D_, X, Y, OTHER], "markers": []})
     sp = os.path.join(wd, "scen.ndjson")
@@ -443,8 +475,9 @@ def run(tier):
         "samples": [scen[0]["lib"], scen[1]["lib"]],
         "exhaustive": False,
     })
-    rep.assumptions += ["markers occur only outside intersections and complements, and each byte carries one fixed marker "
-                        "per expression (so every expression is output-deterministic)",
+    rep.assumptions += ["markers never occur under complements; under intersection / difference one operand is marked and the other "
+                        "unmarked (marker 0 unifies with any marker); each byte carries one fixed marker per expression (so every "
+                        "expression is output-deterministic)",
                         "bytes an expression does not mention are represented by one byte (33)",
                         "expressions whose derivative automaton does not finish within the per-case timeout are "
                         "counted as undecided, not as passed",
